@@ -882,6 +882,9 @@ def config_st(draw, tier, facet, complete=True):
     if tomo in ("povmt", "qmpt"):
         hi = 4 if (tomo == "povmt" or d == 2) else (3 if d == 3 else 2)
         case["m"] = draw(st.integers(2, hi))
+        # a measurement process with ONE outcome (a gate seen as an instrument) is a valid unknown of StandardQmpt
+        if tomo == "qmpt" and draw(st.integers(0, 5)) == 0:
+            case["m"] = 1
     good = ["base", "base", "base", "generic"]
     bad = ["few", "few", "subspace"]
     need_s = tomo != "qst"
